@@ -58,7 +58,12 @@ def _parse_list(out, name):
     m = re.search(re.escape(name) + r"\s*=\s*(.*?)\s*:\s*list\s*\(string \* string \* string \* string\)", flat)
     if not m:
         return None
-    return [dict(fn=a, site=b, reason=c, origin=d) for a, b, c, d in _QUAD.findall(m.group(1))]
+    out = []
+    for a, b, c, d in _QUAD.findall(m.group(1)):
+        p = dict(fn=a, site=b, reason=c, origin=d)
+        if p not in out:     # the arms of a dynamic dispatch report the same site once each
+            out.append(p)
+    return out
 
 
 def _allowed():
